@@ -574,14 +574,111 @@ func runInteractive(c *harness.Ctx) harness.Result {
 	return res
 }
 
+// legend self-consistency under the options that make entry values exceed the report total
+// (-mean: every entry shows its own mean; -diff_base: the total covers the base only): whatever is
+// trimmed, "accounting for" is the sum of the flat values shown
+func runLegend(c *harness.Ctx) harness.Result {
+	r := c.Rng
+	var p *profile.Profile
+	for {
+		p = c04.GenReportProfile(r)
+		if usableNames(p) {
+			break
+		}
+	}
+	profs := map[string]*profile.Profile{"p": p}
+	var lists map[string][]string
+	mode := []string{"mean", "diff_base", "base", "plain"}[r.Intn(4)]
+	b := map[string]bool{"functions": true}
+	if mode == "mean" {
+		b["mean"] = true
+	}
+	if mode == "diff_base" || mode == "base" {
+		// the base is the same profile with some samples removed and some values changed
+		q := p.Copy()
+		var keep []*profile.Sample
+		for _, s := range q.Sample {
+			if r.Intn(3) == 0 {
+				continue
+			}
+			if r.Intn(2) == 0 {
+				for i := range s.Value {
+					s.Value[i] /= 2
+				}
+			}
+			keep = append(keep, s)
+		}
+		q.Sample = keep
+		profs["q"] = q
+		lists = map[string][]string{mode: {"q"}}
+	}
+	idx := p.SampleType[r.Intn(len(p.SampleType))].Type
+	ints := map[string]int{"nodecount": []int{-1, 0, 1, 2, 3, 5}[r.Intn(6)]}
+	floats := map[string]float64{"nodefraction": []float64{0, 0, 0.005, 0.1, 0.4}[r.Intn(5)]}
+	if r.Intn(2) == 0 {
+		b["cum"] = true
+	} else {
+		b["flat"] = true
+	}
+	desc := fmt.Sprintf("%s sample_index=%s %v %v cum=%v", mode, idx, ints, floats, b["cum"])
+	res := harness.Result{NonTrivial: len(p.Sample) >= 2, Sig: gen.Shape(p) + desc, Sample: map[string]any{"run": desc}}
+	for _, format := range []string{"top", "tree"} {
+		bb := map[string]bool{format: true}
+		for k, v := range b {
+			bb[k] = v
+		}
+		out, ui, rr := drv.Report(profs, []string{"p"}, bb, map[string]string{"sample_index": idx}, ints, floats, lists)
+		if rr.Panic != "" {
+			return harness.Violation("%s -%s: panic %s", desc, format, rr.Panic)
+		}
+		if rr.Err != nil {
+			c.Stat("legend_errors", 1)
+			_ = ui
+			continue
+		}
+		var h parse.Header
+		var flats []int64
+		if format == "top" {
+			hh, rows, err := parse.Top(out)
+			if err != nil {
+				return harness.Violation("%s -top unparseable: %v\n%s", desc, err, out)
+			}
+			h = hh
+			for _, x := range rows {
+				flats = append(flats, x.Flat)
+			}
+		} else {
+			hh, nodes, err := parse.Tree(out)
+			if err != nil {
+				return harness.Violation("%s -tree unparseable: %v\n%s", desc, err, out)
+			}
+			h = hh
+			for _, n := range nodes {
+				flats = append(flats, n.Row.Flat)
+			}
+		}
+		c.Stat("legends_checked", 1)
+		var sum int64
+		for _, f := range flats {
+			sum += f
+		}
+		if h.Found && h.Accounting != sum {
+			res.Verdict = harness.Violated
+			res.Detail = fmt.Sprintf("%s -%s: the legend says 'accounting for %d', the %d flat values shown sum to %d\n%s", desc, format, h.Accounting, len(flats), sum, harness.Trunc(out, 2500))
+			return res
+		}
+	}
+	return res
+}
+
 func init() {
 	harness.Register(&harness.Check{
 		ID:    "C05",
 		Level: "exploration",
-		Rule: "report-class profiles (as C04) x granularity x noinlines x sample_index x 4 trim points: nodecount in {0,1,2,3,5,n-1,n,n+1}, nodefraction placed just below/at/above an actual |cum|/sum(flat) ratio (or 0, .005, .3, 1, 2), edgefraction around an actual edge ratio, flat/cum sort; rendered as -top, -tree, -dot and -dot -call_tree through the real driver; part interactive: 'top N', 'top N -cum' and 'top' typed into a fresh interactive session must print the table pprof -top -nodecount=N prints (10 for the bare command). " +
+		Rule: "report-class profiles (as C04) x granularity x noinlines x sample_index x 4 trim points: nodecount in {0,1,2,3,5,n-1,n,n+1}, nodefraction placed just below/at/above an actual |cum|/sum(flat) ratio (or 0, .005, .3, 1, 2), edgefraction around an actual edge ratio, flat/cum sort; rendered as -top, -tree, -dot and -dot -call_tree through the real driver; part legend: -top and -tree under -mean, -base and -diff_base (where entry values can exceed the report total) with random nodecount/nodefraction: 'accounting for' must equal the sum of the flat values shown. part interactive: 'top N', 'top N -cum' and 'top' typed into a fresh interactive session must print the table pprof -top -nodecount=N prints (10 for the bare command). " +
 			"oracle: shown entries carry their untrimmed flat/cum; text reports show exactly min(N, #{|cum|>=cutoff}) entries, none below the cutoff, no hidden eligible entry outranking a shown one, rows ordered by the sort magnitude; legends (accounting for, Dropped K nodes, top N of M) match; every edge joins shown entries; solid edges carry the untrimmed direct adjacency weight, dotted edges the adjacency over the shown entries with at least one bypassing sample; -tree completeness at the edge cutoff; call trees: <=1 parent, edge weight = child's cum, every node matches a distinct untrimmed tree node. non-trivial = at least 2 untrimmed entries; distinct = profile shape",
 		Assumptions:   []string{"node cutoff = |trunc(sum of untrimmed flat x nodefraction)|, edge cutoff likewise (documented rule)", "cases in which two untrimmed entries share a printable name are skipped (entries are identified by name in the output)", "graphical reports pick survivors heuristically: only invariance, cutoff and nodecount bound are checked for -dot"},
-		Parts:         []harness.Part{{Name: "trim", Quick: 8000, Thor: 200000, Run: runCase}, {Name: "interactive", Quick: 150, Thor: 4000, Run: runInteractive}},
+		Parts:         []harness.Part{{Name: "trim", Quick: 8000, Thor: 200000, Run: runCase}, {Name: "interactive", Quick: 150, Thor: 4000, Run: runInteractive}, {Name: "legend", Quick: 1500, Thor: 60000, Run: runLegend}},
 		MinNonTrivial: func(string) int { return 300 },
 		Finish: func(tier string, st map[string]int64) string {
 			if st["residual_edges_seen"] == 0 {
